@@ -445,8 +445,7 @@ def write_evidence(mod, ctx, nviol, known_hit, infra_error):
         cov.pop("discharged")
         cov["discharged_obligations"] = 0
         cov["explanation"] = "no proof obligation could be discharged on this tree (see broken_obligations); the counts describe the failing-input search"
-        cov["evaluations"] = max(cov["evaluations"], 1)
-        cov["distinct_nontrivial"] = max(cov["distinct_nontrivial"], 2) if cov["evaluations"] >= 2 else cov["distinct_nontrivial"]
+
     ev = {
         "property_id": ctx.prop, "tier": ctx.tier, "seed": ctx.seed, "level": "proof",
         "coverage": cov,
